@@ -101,3 +101,37 @@ func verifH_C16_rows() {
 	verifAssert(len(got) == k, "no_extra_records")
 	verifReach("end")
 }
+
+var verifCalibrations = [][2]float64{{-2000, 1000}, {1000, 1000}, {-2000, 908}, {1, 3}}
+
+// C16 (value rule, precise): for fixed calibration pairs - two with an exact
+// ratio, two whose ratio is not representable - the value of a single
+// well-formed row is the reading scaled as (multiplier * reading) / divider in
+// IEEE double arithmetic, truncated toward zero, for every reading.
+func verifH_C16_value_rule_fixed_calibration() {
+	c := &Client{staticBaseDir: verifTempDir()}
+	c.EventLog = glow.NewEventLogger(time.Hour, 1000, 100)
+	cal := verifCalibrations[verifCase("calibration", 0, 3)]
+	c.energyMultiplier, c.energyDivider = cal[0], cal[1]
+	ts := int64(glow.GenesisTime) + 600
+	e := verifF64("e.val")
+	verifAssume(e >= 24 && e < 1e12)
+	rec := []string{verifIntTokenOf("ts", ts), verifFloatTokenOf("e", e)}
+	verifAssume(verifBool("ts.ok") && verifBool("e.ok"))
+	verifGhostSet("csv", [][]string{rec})
+	text := ""
+	if !verifSymbolic() {
+		text = strings.Join(rec, ",") + "\n"
+	}
+	if err := os.WriteFile(path.Join(c.staticBaseDir, EnergyFile), []byte(text), 0644); err != nil {
+		panic(err)
+	}
+	got, err := c.staticReadEnergyFile()
+	verifAssert(err == nil && len(got) == 1, "row_yields_a_record")
+	if err != nil || len(got) != 1 {
+		return
+	}
+	scaled := cal[0] * e / cal[1]
+	verifAssert(got[0].Energy == uint64(int64(scaled)), "scaled_truncated_twos_complement")
+	verifReach("end")
+}
